@@ -392,7 +392,7 @@ PROPS["C05"] = {
 PROPS["C06"] = {
     "pkg": "c06", "level": "exploration",
     "rule": ("rapid draws an endpoint behaviour (absent = refusing port; black hole = accepts, then never reads, 16 KiB receive buffer; throttled = reads 4-64 KiB "
-             "per ms; healthy; closing = closes every connection after 1..1000000 bytes), a route type (sendAllMatch / sendFirstMatch / consistentHashing), "
+             "per ms; healthy; closing = closes every connection after 1..3000000 bytes, drawn twice as often as the others), a route type (sendAllMatch / sendFirstMatch / consistentHashing), "
              "spooling on or off (with spooling on an absent endpoint is checked for boundedness only: what happens to the lines is C07), "
              "connbuf 0..1000, iobuf 16..65536, flush 1-100 ms, and 1-8 MB of traffic in lines of 30-200 bytes dispatched through a real table that "
              "also holds a healthy sibling capture route. Oracle: (a) boundedness - the dispatcher goroutine is watched; no hand-off may take longer "
